@@ -58,6 +58,29 @@ def dump_consts():
     return True, out, changed
 
 
+def run_translator(spec):
+    """Second tie (DESIGN 13.16): regenerate the Lean translation of a Rust source file with tools/rs2lean.py (rewritten only when the
+    content changes).  spec = dict(src=<path under /repo>, outs=[(lean file name under Gen/, [extra args])...]).
+    Returns (ok, message, changed-files)."""
+    changed = []
+    for name, extra in spec['outs']:
+        dst = os.path.join(LEAN, 'GmVerif', 'Gen', name)
+        tmp = dst + '.tmp.%d' % os.getpid()
+        rc, out = sh(['python3', os.path.join(ROOT, 'tools', 'rs2lean.py'), os.path.join('/repo', spec['src']), tmp] + extra, timeout=120)
+        if rc != 0:
+            if os.path.exists(tmp):
+                os.remove(tmp)
+            return False, 'translator rejected %s: %s' % (spec['src'], out.strip()[-400:]), changed
+        new = open(tmp).read()
+        old = open(dst).read() if os.path.exists(dst) else None
+        if new != old:
+            os.replace(tmp, dst)
+            changed.append(name)
+        else:
+            os.remove(tmp)
+    return True, '', changed
+
+
 def lake_build(targets, timeout=3600):
     with Lock('lake'):
         rc, out = sh(['lake', 'build'] + targets, cwd=LEAN, timeout=timeout)
